@@ -27,6 +27,7 @@ pub fn prop() -> HistProp {
         mk: |_, _, _| Box::new(C03 { nontrivial: false }),
         extra: None,
         many_batches: 1,
+        zero_arrival: 0,
     }
 }
 
